@@ -60,6 +60,12 @@ theorem gen_constants_eq :
       (frameWindowUpdate, "parseWindowUpdateFrame"), (frameContinuation, "parseContinuationFrame"),
       (framePriorityUpdate, "parsePriorityUpdateFrame")] := by decide
 
+/-- `SetMaxReadFrameSize` as translated from the Go source is the model's clamp. -/
+theorem gen_setMaxReadFrameSize_eq (old v : Nat) :
+    Gen.C06.setMaxReadFrameSize old v = some (setMaxReadFrameSize v) := by
+  unfold Gen.C06.setMaxReadFrameSize setMaxReadFrameSize maxFrameSize
+  split <;> rfl
+
 /-! ### Frame length, stream-ID rules -/
 
 /-- the stream-ID rules: stream-bound frame types need a non-zero stream id,
